@@ -1,13 +1,15 @@
 """
 Replay of real traces through the executable Lean model: translation of a trace of dyn_rt.run into
-model events (+ the reactions observed on the implementation), one request line per trace.
+model events (+ the reactions observed on the implementation), one request line per trace and layer.
 
 Layer A (AJ/Model/Run.lean): starting of jobs, window slots, nesting.
 Layer B (AJ/Model/Full.lean): exits, cancellation, verdicts, shutdown.
 """
 from dyn_gen import index
 
-BEHAV_A = ["env:A1", "env:guard", "impl:start"]
+# which differences break which property's tie (DESIGN.md 3.3): a property proved on layer A depends on the
+# replay of layer A only; the others on the replay of layer B as well
+LAYER_A_PROPS = {"C01", "C02", "C07", "C12", "C14"}
 
 
 def assign_ids(sc):
@@ -40,7 +42,8 @@ def assign_ids(sc):
 
 
 def enc(l):
-    return ",".join(str(x) for x in sorted(l)) if l else "-"
+    l = sorted(l)
+    return ",".join(str(x) for x in l) if l else "-"
 
 
 def cfg_tokens(sc, ids, order):
@@ -85,92 +88,295 @@ def res_token(ids, line):
     return "x?"
 
 
-def translate_A(sc, trace):
-    """list of event strings for replayA"""
+def translate(sc, res, trace):
+    """-> (ids, order, eventsA, eventsB, diag)"""
     ids, order = assign_ids(sc)
     info = index(sc)
     log = [e for e in trace if e[2] != "snap"]
-    evs = []
+    A, B = [], []
     now = 0
-    ended = set()          # jobs whose end the model has been told about
+    ended, hended = set(), set()
+    phase = {}              # scheduler -> loop / tidy / shut / shutTidy / over
+    pending_react = {}      # scheduler -> True while a wait-return has not been reacted to
+    cancel_in_gap = set()   # schedulers cancelled while a reaction was pending
+    relay = {}              # scheduler -> wait / tidy (state of its relayed co_shutdown)
+    entered = {}            # (scheduler, ctx) -> names of the last sd wait
+    excid = {}              # job -> id of the exception its task ended with
+    hcancelled = set()
+    taken = set()
+    n = len(log)
+
+    def ack_unstarted(K):
+        """a task cancelled while queued (or before its first step) finishes at once, without any job-level line"""
+        for k in K:
+            name = order[k]["name"]
+            if name not in taken and name not in ended:
+                ended.add(name)
+                A.append("A_%d" % k)
+                B.append("A_%d" % k)
+
+    def par(x):
+        return info.get(x, {}).get("parent")
 
     def tick(t):
         nonlocal now
         if t > now:
-            evs.append("T_%d" % (t - now))
+            A.append("T_%d" % (t - now))
+            B.append("T_%d" % (t - now))
             now = t
 
-    def following(i, s, kinds_stop):
-        """lines after position i up to the next suspension / end of scheduler s"""
+    def step_lines(i, s, ctx):
+        """lines i.. that belong to the step of scheduler s's task (ctx) beginning at i, up to and including its
+        next suspension / end"""
         out = []
-        for e in log[i + 1:]:
-            if e[2] in ("wenter", "rret", "rraise", "rcancel") and e[3] == s:
-                out.append(e)
-                break
+        for e in log[i:]:
             out.append(e)
+            if e[3] == s and ((e[2] == "wenter" and e[6] == ctx) or
+                              (ctx == "run" and e[2] in ("rret", "rraise", "rcancel")) or
+                              (ctx == "relay" and e[2] in ("sdret", "sdexc") and e[5] == "relay")):
+                break
         return out
 
-    i = 0
-    n = len(log)
-    while i < n:
+    def reaction(lines, s):
+        K = [ids[x[3]] for x in lines if x[2] == "cancel" and par(x[3]) == s]
+        S = [ids[x[3]] for x in lines if x[2] == "create" and par(x[3]) == s]
+        H = [ids[x[3]] for x in lines if x[2] == "hcreate" and par(x[3]) == s]
+        HC = [ids[x[3]] for x in lines if x[2] == "hcancel" and par(x[3]) == s]
+        return K, S, H, HC
+
+    def pick_for(s, finline):
+        """the critical job whose exception object a critical scheduler re-raises"""
+        if finline[2] != "rraise":
+            return 0
+        for c in info[s]["children"]:
+            if c["crit"] and excid.get(c["name"]) == finline[4]:
+                return ids[c["name"]]
+        return 0
+
+    def finish(s, finline, i):
+        """co_run of s ends: the pending return event of its phase carries the verdict"""
+        r = res_token(ids, finline)
+        pk = pick_for(s, finline)
+        v = ""
+        # value of the co_shutdown() that just returned, if it did (same loop iteration, before this line)
+        for e in reversed(log[:i]):
+            if (e[0], e[1]) != (finline[0], finline[1]):
+                break
+            if e[2] == "sdcall" and e[3] == s:
+                break
+            if e[2] == "sdret" and e[3] == s and e[5] == "run":
+                v = "~V=" + ("n" if e[4] is None else "t" if e[4] else "f")
+                break
+        ph = phase.get(s)
+        if not info[s]["children"]:
+            pass        # an empty scheduler is over as soon as it begins (same model step)
+        elif ph == "tidy":
+            B.append("TR_%d_%d~R=%s%s" % (ids[s], pk, r, v))
+        elif ph == "shut":
+            B.append("SW_%d_%d~R=%s%s" % (ids[s], pk, r, v))
+        elif ph == "shutTidy":
+            B.append("SY_%d_%d~R=%s%s" % (ids[s], pk, r, "" if "n" in v else v))
+        else:
+            B.append("BAD_finish_%d_in_phase_%s" % (ids[s], ph))
+        if info[s]["children"]:
+            A.append("F_%d_%s" % (ids[s], r))
+        phase[s] = "over"
+        if finline[2] == "rraise":
+            excid[s] = finline[4]
+
+    def react_if_pending(i, s):
+        """the line at i is the first line of the step in which s reacts to its last wait-return"""
+        if not pending_react.get(s):
+            return
+        pending_react[s] = False
+        lines = step_lines(i, s, "run")
+        K, S, H, HC = reaction(lines, s)
+        if s in cancel_in_gap:
+            cancel_in_gap.discard(s)
+            A.append("L_%d_%s" % (ids[s], enc(K)))
+            B.append("CA_%d~K=%s" % (ids[s], enc(K)))
+            ack_unstarted(K)
+            phase[s] = "tidy"
+            return
+        last = lines[-1]
+        stay = last[2] == "wenter" and last[3] == s and last[4] == "main"
+        A.append("R_%d_%d_%s_%s" % (ids[s], 0 if stay else 1, enc(K), enc(S)))
+        B.append("R_%d~K=%s~S=%s" % (ids[s], enc(K), enc(S)))
+        ack_unstarted(K)
+        if not stay:
+            phase[s] = "tidy"
+
+    for i in range(n):
         e = log[i]
         t, kind, who = e[0], e[2], e[3]
         if kind == "topend":
             break
-        if kind == "rbegin" and info[who]["parent"] is None:
+        # is this line the beginning of a reaction step of some scheduler?
+        owner = None
+        if kind in ("create", "cancel") and par(who) is not None:
+            owner = par(who)
+        elif kind == "wenter" and e[6] == "run":
+            owner = who
+        elif kind == "sdcall" and e[4] == "run":
+            owner = who
+        elif kind in ("rret", "rraise", "rcancel"):
+            owner = who
+        if owner is not None and pending_react.get(owner):
             tick(t)
-            fol = following(i, who, None)
-            started = [ids[x[3]] for x in fol if x[2] == "create" and info[x[3]]["parent"] == who]
-            evs.append("B_%s" % enc(started))
+            react_if_pending(i, owner)
+        if kind == "cancel" and pending_react.get(who):
+            cancel_in_gap.add(who)
+
+        if kind == "rbegin":
+            if par(who) is None:
+                tick(t)
+                lines = step_lines(i, who, "run")
+                _, S, _, _ = reaction(lines, who)
+                A.append("B_%s" % enc(S))
+                B.append("B~S=%s" % enc(S))
+                phase[who] = "loop" if info[who]["children"] else "over"
         elif kind == "take":
             j = e[4]
+            taken.add(j)
             tick(t)
+            S = []
+            extra = ""
             if info[j]["kind"] == "sched":
-                fol = following(i, j, None)
-                started = [ids[x[3]] for x in fol if x[2] == "create" and info[x[3]]["parent"] == j]
-            else:
-                started = []
-            evs.append("G_%d_%s" % (ids[j], enc(started)))
+                lines = step_lines(i + 1, j, "run")
+                _, S, _, _ = reaction(lines, j)
+                phase[j] = "loop" if info[j]["children"] else "over"
+                if not info[j]["children"]:
+                    extra = "~R=t"
+            A.append("G_%d_%s" % (ids[j], enc(S)))
+            B.append("G_%d~S=%s%s" % (ids[j], enc(S), extra))
         elif kind in ("end", "raise"):
             tick(t)
             ended.add(who)
-            evs.append("E_%d_%d" % (ids[who], 1 if kind == "end" else 0))
+            if kind == "raise":
+                excid[who] = "job:" + who
+            A.append("E_%d_%d" % (ids[who], 1 if kind == "end" else 0))
+            B.append("E_%d_%d" % (ids[who], 1 if kind == "end" else 0))
         elif kind == "cdone":
             tick(t)
             ended.add(who)
-            evs.append("A_%d" % ids[who])
+            A.append("A_%d" % ids[who])
+            B.append("A_%d" % ids[who])
         elif kind in ("rret", "rraise", "rcancel"):
             tick(t)
             ended.add(who)
-            if info[who]["children"]:      # an empty scheduler is over as soon as it begins (same model step)
-                evs.append("F_%d_%s" % (ids[who], res_token(ids, e)))
-        elif kind == "wret" and e[4] in ("main", "tidy"):
+            finish(who, e, i)
+        elif kind == "wret" and e[4] in ("main", "tidy") and e[6] == "run":
             s = who
             tick(t)
             D = e[5]
-            # tasks that finished without any job-level line: cancelled while queued / before their first step
-            for j in D:
+            for j in D:      # finished without any job-level line: cancelled while queued / before the first step
                 if j not in ended and j in info:
                     ended.add(j)
-                    evs.append("A_%d" % ids[j])
+                    A.append("A_%d" % ids[j])
+                    B.append("A_%d" % ids[j])
             if e[4] == "main":
-                fol = following(i, s, None)
-                K = [ids[x[3]] for x in fol if x[2] == "cancel" and info.get(x[3], {}).get("parent") == s]
-                started = [ids[x[3]] for x in fol if x[2] == "create" and info[x[3]]["parent"] == s]
-                last = fol[-1] if fol else None
-                leave = not (last is not None and last[2] == "wenter" and last[3] == s and last[4] == "main")
                 if D:
-                    evs.append("W_%d_%d_%s_%s_%s" % (ids[s], 1 if leave else 0, enc(K), enc(ids[x] for x in D), enc(started)))
+                    A.append("W_%d_%s" % (ids[s], enc(ids[x] for x in D)))
+                    B.append("W_%d~D=%s" % (ids[s], enc(ids[x] for x in D)))
+                    pending_react[s] = True
                 else:
-                    evs.append("L_%d_%s" % (ids[s], enc(K)))
-        elif kind == "wcancel" and e[4] == "main":
+                    lines = step_lines(i + 1, s, "run")
+                    K, _, _, _ = reaction(lines, s)
+                    A.append("L_%d_%s" % (ids[s], enc(K)))
+                    B.append("TF_%d~K=%s" % (ids[s], enc(K)))
+                    ack_unstarted(K)
+                    phase[s] = "tidy"
+        elif kind == "wcancel" and e[5] == "run":
             s = who
             tick(t)
-            fol = following(i, s, None)
-            K = [ids[x[3]] for x in fol if x[2] == "cancel" and info.get(x[3], {}).get("parent") == s]
-            evs.append("L_%d_%s" % (ids[s], enc(K)))
-        i += 1
-    return ids, order, evs
+            lines = step_lines(i + 1, s, "run")
+            K, _, _, HC = reaction(lines, s)
+            if e[4] == "main":
+                A.append("L_%d_%s" % (ids[s], enc(K)))
+                B.append("CA_%d~K=%s" % (ids[s], enc(K)))
+                ack_unstarted(K)
+                phase[s] = "tidy"
+            elif e[4] == "tidy":
+                B.append("CA_%d" % ids[s])
+            elif e[4] == "sd":
+                for x in HC:
+                    hcancelled.add(x)
+                B.append("CA_%d~HC=%s" % (ids[s], enc(HC)))
+                phase[s] = "shutTidy"
+            else:
+                B.append("CA_%d" % ids[s])
+        elif kind == "sdcall":
+            s = who
+            tick(t)
+            if e[4] == "run":
+                if phase.get(s) == "tidy":
+                    nxt = log[i + 1] if i + 1 < n else None
+                    if nxt is not None and (nxt[2] == "hcreate" or (nxt[2] == "wenter" and nxt[3] == s)):
+                        lines = step_lines(i + 1, s, "run")
+                        _, _, H, _ = reaction(lines, s)
+                        B.append("TR_%d_0~H=%s" % (ids[s], enc(H)))
+                        phase[s] = "shut"
+            else:
+                lines = step_lines(i + 1, s, "relay")
+                _, _, H, _ = reaction(lines, s)
+                last = lines[-1] if lines else None
+                extra = ""
+                if last is not None and last[2] == "sdret" and last[3] == s:
+                    extra = "~V=" + ("n" if last[4] is None else "t" if last[4] else "f")
+                    relay[s] = "done"
+                else:
+                    relay[s] = "wait"
+                B.append("HS_%d~H=%s%s" % (ids[s], enc(H), extra))
+        elif kind == "wenter" and e[4] in ("sd", "sdtidy"):
+            entered[(who, e[6])] = list(e[5])
+        elif kind == "wret" and e[4] in ("sd", "sdtidy"):
+            s, ctx = who, e[6]
+            tick(t)
+            D = e[5]
+            for j in D:      # handlers that finished without a job-level line
+                if j in info and info[j]["kind"] == "job" and j not in hended:
+                    hended.add(j)
+                    B.append(("HA_%d" if ids[j] in hcancelled else "HE_%d") % ids[j])
+            if e[4] == "sd" and sorted(D) != sorted(entered.get((s, ctx), [])):
+                lines = step_lines(i + 1, s, ctx)
+                _, _, _, HC = reaction(lines, s)
+                for x in HC:
+                    hcancelled.add(x)
+                B.append("ST_%d~HC=%s" % (ids[s], enc(HC)))
+                if ctx == "run":
+                    phase[s] = "shutTidy"
+                else:
+                    relay[s] = "tidy"
+        elif kind == "wcancel" and e[5] == "relay":
+            s = who
+            tick(t)
+            lines = step_lines(i + 1, s, "relay")
+            _, _, _, HC = reaction(lines, s)
+            for x in HC:
+                hcancelled.add(x)
+            B.append("HX_%d~HC=%s" % (ids[s], enc(HC)))
+            relay[s] = "tidy"
+        elif kind in ("sdret", "sdexc") and e[5] == "relay":
+            s = who
+            tick(t)
+            if relay.get(s) == "wait":
+                B.append("SW_%d_0~V=%s" % (ids[s], "t" if e[4] else "f"))
+            elif relay.get(s) == "tidy":
+                B.append("SY_%d_0" % ids[s] + ("~V=f" if kind == "sdret" else ""))
+            relay[s] = "done"
+        elif kind == "sde":
+            tick(t)
+            hended.add(who)
+            B.append("HE_%d" % ids[who])
+        elif kind == "sdc":
+            tick(t)
+            hended.add(who)
+            B.append("HA_%d" % ids[who])
+    diag = []
+    for name, (ft, fc, why) in (res.get("diag") or {}).items():
+        if name in ids:
+            diag.append("%d:%d:%d" % (ids[name], 1 if ft is not False else 0, 1 if fc else 0))
+    return ids, order, A, B, ",".join(diag) or "-"
 
 
 def replay_all(pid, traces, res, drv):
@@ -178,21 +384,25 @@ def replay_all(pid, traces, res, drv):
     lines, cases = [], []
     for sc, r, trace in traces:
         try:
-            ids, order, evs = translate_A(sc, trace)
-        except Exception as ex:          # noqa
+            ids, order, A, B, diag = translate(sc, r, trace)
+        except Exception:          # noqa
             import traceback
-            res.mismatches.append(("harness:translate", {"scenario": sc}, "-", traceback.format_exc()[-400:]))
+            res.mismatches.append(("harness:translate", {"scenario": sc}, "-", traceback.format_exc()[-600:]))
             continue
-        lines.append("replayA %s ev=%s" % (cfg_tokens(sc, ids, order), ";".join(evs)))
-        cases.append((sc, len(evs)))
+        cfg = cfg_tokens(sc, ids, order)
+        lines.append("replayA %s ev=%s" % (cfg, ";".join(A)))
+        cases.append((sc, "A", len(A)))
+        if pid not in LAYER_A_PROPS:
+            lines.append("replayB %s diag=%s ev=%s" % (cfg, diag, ";".join(B)))
+            cases.append((sc, "B", len(B)))
     outs = drv.ask(lines)
-    nev = 0
-    for (sc, n), out, line in zip(cases, outs, lines):
-        res.count("replayA")
-        nev += n
+    nev = {"A": 0, "B": 0}
+    for (sc, layer, n), out, line in zip(cases, outs, lines):
+        res.count("replay" + layer)
+        nev[layer] += n
         if out.startswith("ok"):
             continue
         parts = out.split(" ", 3)
-        comp = parts[2] if len(parts) > 2 else "bad"
-        res.mismatches.append((comp, {"kind": "scenario", "scenario": sc, "request": line[:3000]}, "accepted", out))
-    res.dist["events_replayed_layerA"] = {"total": nev}
+        comp = (parts[2] if len(parts) > 2 else "bad") + "@" + layer
+        res.mismatches.append((comp, {"kind": "scenario", "scenario": sc, "request": line[:4000]}, "accepted", out[:1500]))
+    res.dist["events_replayed"] = {"layerA": nev["A"], "layerB": nev["B"]}
